@@ -259,15 +259,20 @@ func (e *Exec) Run(i int, st Step, knownStaleStop bool) {
 		e.Announced[st.P] = append(e.Announced[st.P], head)
 		e.dirty[st.P] = true
 		info := p.Info()
-		e.start("announce", st.P, i, func(o *Op) {
-			o.Head = head
-			o.Err = e.S.S.Announce(ctx, head, info)
-		})
+		// Issued synchronously: two Announce calls racing in their own goroutines could reach the receiver out
+		// of chain order, which the API forbids its callers (and which then loses the newer head). The call only
+		// waits for the receiver's one-slot hand-over to the watcher, which never waits for the harness.
+		o := &Op{Kind: "announce", P: st.P, Step: i, Start: e.S.NEvents(), Head: head}
+		e.Ops = append(e.Ops, o)
+		o.Err = e.S.S.Announce(ctx, head, info)
+		o.done.Store(true)
 	case "sync":
 		p := e.Pubs[st.P]
-		if knownStaleStop && e.dirty[st.P] && (len(e.Announced[st.P]) == 0 || p.Chain[len(p.Chain)-1] != e.Announced[st.P][len(e.Announced[st.P])-1]) {
-			// known finding: an explicit sync that reaches a head newer than an announcement still waiting to be handled
-			e.Excluded["explicit-sync-ahead-of-unhandled-announcement"]++
+		if knownStaleStop && e.dirty[st.P] {
+			// known finding: an explicit sync that runs while an announcement of the same publisher is still
+			// waiting to be handled may reach a newer head than that announcement (it queries the head when it
+			// finally runs), after which the announcement is handled as if it were new
+			e.Excluded["explicit-sync-with-unhandled-announcement"]++
 			return
 		}
 		if e.busy(st.P) || e.dirty[st.P] {
